@@ -62,8 +62,8 @@ func (c countingDAG) GetMany(ctx context.Context, ks []cid.Cid) <-chan *ipld.Nod
 
 func run(c *vlib.Ctx) {
 	c.Rule("histories of 6-30 ops {Read(buf 0..2x chunk, sometimes > file), CtxReadFull, Seek(target in [-size-2, size+66] via SeekStart/SeekCurrent/SeekEnd, rare invalid whence), WriteTo} on a DagReader over (a) importer-built files: balanced|trickle x width 2..8 (sometimes 174) x size-N/rabin chunker x raw|dag-pb leaves x CID v0/v1/blake2b, length 0 .. 256 KiB quick / 4 MiB thorough incl. chunk and width^depth boundaries +-1; (b) DAGs produced by DagModifier sessions (overwrite, append, sparse extension, truncation); distinct = FNV of config + op list; non-trivial = DAG depth >= 2 and a Seek that lands strictly inside the leaf that is currently partially consumed")
-	c.Cases("importer", c.N(2200, 20000), func(k *vlib.Case) { oneCase(k, false) })
-	c.Cases("modifier-dag", c.N(800, 6000), func(k *vlib.Case) { oneCase(k, true) })
+	c.Cases("importer", c.N(2200, 10000), func(k *vlib.Case) { oneCase(k, false) })
+	c.Cases("modifier-dag", c.N(800, 3000), func(k *vlib.Case) { oneCase(k, true) })
 }
 
 var prefixes = []struct {
